@@ -32,7 +32,6 @@ def main():
         print(name, "rc=%d" % p.returncode, viol)
     finally:
         subprocess.run("git -C /repo worktree remove --force %s" % wt, shell=True)
-        subprocess.run("rm -rf /verif/build/front_target_* 2>/dev/null; true", shell=True)
 
 
 if __name__ == "__main__":
